@@ -49,7 +49,13 @@ PROPS['C02'] = Prop(
                bounds='CallbackList, 3 initial callbacks, one outermost invocation; callbacks draw A=3 actions in total from append/prepend/insert-before-h/remove-h/re-invoke, '
                       'h over all handles incl. own, removed and empty; nesting depth <= 2; invocation arguments symbolic'),
            Run('disp_nested_a2', 'cl_nested.cpp', {'N0': 2, 'AA': 2, 'DD': 2, 'DISP': None}, covers=6, optional_covers=(5,),
-               bounds='EventDispatcher<int,...> (dispatch and directDispatch), 2 initial listeners, A=2 actions incl. appendListener/dispatch on a second event; depth <= 2')],
+               bounds='EventDispatcher<int,...> (dispatch and directDispatch), 2 initial listeners, A=2 actions incl. appendListener/dispatch on a second event; depth <= 2')] + [
+           Run('cl_nested_%s_a2' % tag, 'cl_nested.cpp', dict({'N0': 3, 'AA': 2, 'DD': 2, 'THREADING': thr}, **extra), covers=6, optional_covers=(5,), native=('gxx-O0-san', 'gxx-O2') if tag == 'single' else (),
+               bounds='"under every threading policy": the nested programs (3 callbacks, A=2, depth <= 2%s) under %s' % (', EventDispatcher' if extra else '', what))
+           for (tag, thr, extra, what) in [('stdmutex', 'eventpp::MultipleThreading', {}, 'MultipleThreading: the real std::mutex / std::atomic through the engine model of pthread_mutex_* (a lock held across a callback = relock by its owner = deadlock)'),
+                                           ('spinlock', 'eventpp::GeneralThreading<eventpp::SpinLock>', {}, 'GeneralThreading<SpinLock>: the real SpinLock on its IR atomics (a lock held across a callback spins forever)'),
+                                           ('single', 'eventpp::SingleThreading', {}, 'SingleThreading (no locks, plain counters)'),
+                                           ('disp_stdmutex', 'eventpp::MultipleThreading', {'DISP': None, 'N0': 2}, 'MultipleThreading (std::mutex via the pthread model)')]],
     thorough=[Run('cl_nested_a4', 'cl_nested.cpp', {'N0': 3, 'AA': 4, 'DD': 3}, covers=6, budget_s=1700, bounds='CallbackList, 3 initial callbacks, A=4 actions, depth <= 3'),
               Run('disp_nested_a3', 'cl_nested.cpp', {'N0': 3, 'AA': 3, 'DD': 2, 'DISP': None}, covers=6, budget_s=1700, bounds='EventDispatcher, 3 initial listeners, A=3 actions, depth <= 2')],
     outside='more than A actions per outermost invocation; nesting deeper than D; counter wrap during the invocation (C19); threads (C03)',
